@@ -5,6 +5,10 @@ V = os.path.dirname(os.path.dirname(os.path.abspath(__file__)))
 ids = [json.loads(l)["id"] for l in open(os.path.join(V, "properties.jsonl"))]
 
 CHECKS = {
+ "C06": dict(cat="exploration", design="§4 C06",
+   technique="metamorphic property-based testing: folded vs unfolded rendering of enumerated and Hypothesis-generated literal expression trees",
+   text="All depth-1 trees over 23 boundary literals of the four kinds and the operators + - * / % << >> & | xor, unary minus, !, get, or (and a reduced-leaf depth-2 family, sampled in quick, complete in thorough), plus Hypothesis trees to depth 3, optionally inside a list literal, are rendered with literals inline and with every literal bound to a variable first; with typed print the two programs must print the same kind and text, and the folded one must be rejected by constant evaluation exactly when the unfolded one fails at run time (a folded form that is accepted and fails identically at run time is tolerated).",
+   note="The numeric model only batches and labels. A minus sign directly before a too-wide int literal is one literal (not generated). Type-checker rejections of the folded form (static type quirks of wide literals and mixed-kind bit operators, C02's business) are counted as rejected, not judged."),
  "C18": dict(cat="exploration", design="§4 C18",
    technique="differential testing (run vs raw-text compile -> transpile -> execute) over the corpus, Hypothesis-generated single-module programs and an exhaustive enumeration of format-special string literals",
    text="Single-module corpus files, programs from the generators of C01/C07/C08/C12/C13/C15/C17 and exhaustively all string literals up to length 3 (quick, plus a seeded sample of length 4; thorough: all up to length 4) over the format-special alphabet are compiled to human-readable bytecode, renamed, transpiled and executed; stdout and exit class must equal those of `run`, and the string programs must reproduce the bytes computed from the decoded strings.",
